@@ -7,7 +7,7 @@ from engine.ctx import exc_label
 
 FUNCTIONS = ['bycycle.cyclepoints.zerox.find_zerox', 'bycycle.cyclepoints.zerox._find_flank_midpoints',
              'bycycle.cyclepoints.zerox.find_flank_zerox']
-BOUNDS = {'quick': 'signal length N <= 7, every real-valued signal, every alternating extrema sequence with 2..5 extrema',
+BOUNDS = {'quick': 'signal length N <= 7, every real-valued signal, every alternating extrema sequence with 2..5 extrema; int16 / uint8 signals (every value of the type) with N <= 5',
           'thorough': 'signal length N <= 9, every real-valued signal, every alternating extrema sequence with 2..7 extrema'}
 OUTSIDE = 'longer signals; IEEE rounding of the midpoint (a+b)/2 (reals are used); non-alternating inputs'
 STUBS = []
@@ -22,6 +22,11 @@ def configs(tier):
         for k in range(2, min(n, top_k) + 1):
             for first in ('peak', 'trough'):
                 out.append({'n': n, 'k': k, 'first': first})
+    # recordings stored as machine integers (raw ADC counts): sums / differences of samples must not wrap around
+    for dt in ('int16', 'uint8'):
+        for n, k in (((3, 2), (5, 3)) if tier == 'quick' else ((3, 2), (4, 2), (5, 3), (6, 4))):
+            for first in ('peak', 'trough'):
+                out.append({'n': n, 'k': k, 'first': first, 'dtype': dt})
     return out
 
 
@@ -61,7 +66,11 @@ def run(ctx, cfg):
     np = ctx.np
     n, k, first = cfg['n'], cfg['k'], cfg['first']
     zx = ctx.mod('bycycle.cyclepoints.zerox')
-    x = [ctx.real('x%d' % i) for i in range(n)]
+    if cfg.get('dtype'):
+        x, sig = ctx.int_signal(['x%d' % i for i in range(n)], cfg['dtype'])
+    else:
+        x = [ctx.real('x%d' % i) for i in range(n)]
+        sig = np.array(list(x), dtype=float)
     ps = [ctx.integer('p%d' % j) for j in range(k)]
     ctx.assume(ps[0] >= 0)
     for j in range(1, k):
@@ -71,7 +80,6 @@ def run(ctx, cfg):
     kinds = [first if j % 2 == 0 else ('trough' if first == 'peak' else 'peak') for j in range(k)]
     peaks = [p for p, kd in zip(pos, kinds) if kd == 'peak']
     troughs = [p for p, kd in zip(pos, kinds) if kd == 'trough']
-    sig = np.array(list(x), dtype=float)
     try:
         rises, decays = zx.find_zerox(sig, np.array(peaks, dtype=int), np.array(troughs, dtype=int))
     except Exception as e:
